@@ -152,7 +152,7 @@ TRACED_NAMES = (
     + python3_10.ACCESS_NAME_NAMES
     + python3_10.ACCESS_GLOBAL_NAMES
     + ACCESS_DEREF_NAMES
-    + python3_10.ATTRIBUTES_NAMES
+    + ATTRIBUTES_NAMES
     + python3_10.ACCESS_SUBSCR_NAMES
     + ACCESS_SLICE_NAMES
     + python3_11.IMPORT_NAME_NAMES
